@@ -50,7 +50,7 @@ func (c19) Budget(tier string) runner.Budget {
 	if tier == "thorough" {
 		return runner.Budget{Plans: 12000, PlansPerProc: 25, Wall: 12 * time.Minute}
 	}
-	return runner.Budget{Plans: 400, PlansPerProc: 10, Wall: 45 * time.Second}
+	return runner.Budget{Plans: 540, PlansPerProc: 10, Wall: 45 * time.Second}
 }
 
 func (c19) Describe() runner.Description {
